@@ -11,7 +11,7 @@ import (
 )
 
 func debugDump(what string) int {
-	p, err := core.Load(core.LoadConfig{})
+	p, err := core.LoadCanonical(core.LoadConfig{})
 	if err != nil {
 		fmt.Println(err)
 		return 2
